@@ -65,6 +65,8 @@ func runOracles(res *Result, prop string, c *Case) {
 		oracleC13(res, c)
 	case "C19":
 		oracleC19(res, c)
+	case "C11":
+		oracleC11(res, c)
 	}
 }
 
@@ -525,5 +527,81 @@ func oracleC13(res *Result, c *Case) {
 		}
 	} else {
 		res.fail(c, "C13.transfer", "hop panicked", "C13:hop-panic")
+	}
+}
+
+// ---------------------------------------------------------------------
+// C11: every accessor of the public API before the first hop and after hops 1..3.
+
+// accForC11 is accSX with the safe details of barrier and secondary layers blanked
+// (they embed a rendering of the hidden error) plus the parsed reportable stacks and the
+// one-line source.
+func accForC11(e error) SX {
+	a := accSX(e)
+	for i, f := range a.L {
+		if f.Kind == 'l' && len(f.L) == 2 && f.L[0].Sym == "safedet" {
+			var out []SX
+			for _, p := range f.L[1].L {
+				tn := p.L[0].Str
+				if tn == "github.com/cockroachdb/errors/barriers/*barriers.barrierErr" ||
+					tn == "github.com/cockroachdb/errors/secondary/*secondary.withSecondaryError" {
+					out = append(out, L(p.L[0], p.L[1], L()))
+				} else {
+					out = append(out, p)
+				}
+			}
+			a.L[i] = L(Sym("safedet"), L(out...))
+		}
+		if f.Kind == 'l' && len(f.L) == 3 && f.L[0].Sym == "root" {
+			a.L[i] = L(Sym("root"), f.L[1]) // the Go type of the root may become opaque; its text may not change
+		}
+	}
+	var frames []SX
+	for c := e; c != nil; c = errors.UnwrapOnce(c) {
+		st := errors.GetReportableStackTrace(c)
+		if st == nil {
+			frames = append(frames, L(Sym("none")))
+			continue
+		}
+		var fs []SX
+		for _, f := range st.Frames {
+			fs = append(fs, L(Str(f.Function), Str(f.Module), Str(f.Filename), Str(f.AbsPath), Nat(f.Lineno)))
+		}
+		frames = append(frames, L(fs...))
+	}
+	file, line, fn, ok := errors.GetOneLineSource(e)
+	return L(a, L(Sym("frames"), L(frames...)), L(Sym("source"), Str(file), Nat(line), Str(fn), Bool(ok)))
+}
+
+func oracleC11(res *Result, c *Case) {
+	a0 := accForC11(c.Err).String()
+	for k := 1; k <= 3; k++ {
+		h, ok := hopsReal(c.Err, k)
+		res.OracleEvals["C11.accessors_after_hops"]++
+		if !ok {
+			res.fail(c, "C11.no_panic", "hop panicked", "C11:hop-panic")
+			return
+		}
+		ak := accForC11(h)
+		if ak.String() != a0 {
+			// find the first differing field
+			f0 := accForC11(c.Err)
+			which := "?"
+			for i := range f0.L[0].L {
+				if i < len(ak.L[0].L) && f0.L[0].L[i].String() != ak.L[0].L[i].String() {
+					which = f0.L[0].L[i].L[0].Sym
+					break
+				}
+			}
+			if which == "?" {
+				if f0.L[1].String() != ak.L[1].String() {
+					which = "frames"
+				} else if f0.L[2].String() != ak.L[2].String() {
+					which = "source"
+				}
+			}
+			res.fail(c, "C11.accessors_after_hops", fmt.Sprintf("after %d hop(s) accessor %q differs", k, which), "C11:"+which)
+			return
+		}
 	}
 }
